@@ -6,6 +6,7 @@ import (
 	"time"
 
 	"gitee.com/Trisia/gotlcp/tlcp"
+	"github.com/emmansun/gmsm/smx509"
 	"verifharness/internal/hx"
 	"verifharness/internal/pair"
 	"verifharness/internal/pki"
@@ -37,7 +38,8 @@ func identity(der []byte) string {
 
 func tlcpDstKey(d int) string { return fmt.Sprintf("dst%d:443", d) }
 
-func tlcpHandshake(dst int, server int, cs, ss []uint16, ccache, scache Cache[*tlcp.SessionState], fault string, seed uint64, mid func()) HS {
+func tlcpHandshake(cn Conn, ccache, scache Cache[*tlcp.SessionState], seed uint64, mid func()) HS {
+	dst, server, cs, ss, fault := cn.Dst, cn.Server, cn.CS, cn.SS, cn.Fault
 	s := pki.Std()
 	rnd := hx.NewRand(seed)
 	ccfg := &tlcp.Config{RootCAs: s.Root.Pool, ServerName: "test.example", Time: pki.NowFn, CipherSuites: cs,
@@ -53,6 +55,28 @@ func tlcpHandshake(dst int, server int, cs, ss []uint16, ccache, scache Cache[*t
 	}
 	if scache != nil {
 		scfg.SessionCache = scache
+	}
+	// client authentication: the server's policy, the client's certificate, and the server's two
+	// callbacks as observers (they accept everything)
+	if l := ClientLeaf(cn.Cert); l != nil {
+		ccfg.Certificates = []tlcp.Certificate{pair.TCert(l)}
+	}
+	scfg.ClientAuth = tlcp.ClientAuthType(cn.Auth)
+	scfg.ClientCAs = s.Root.Pool
+	vpc, vc := "x", "x"
+	scfg.VerifyPeerCertificate = func(raw [][]byte, _ [][]*smx509.Certificate) error {
+		vpc = "n"
+		if len(raw) > 0 {
+			vpc = ClientIdentity(raw[0])
+		}
+		return nil
+	}
+	scfg.VerifyConnection = func(st tlcp.ConnectionState) error {
+		vc = "n"
+		if len(st.PeerCertificates) > 0 {
+			vc = ClientIdentity(st.PeerCertificates[0].Raw)
+		}
+		return nil
 	}
 	c, sv, ce, se, r := pair.TLCP(ccfg, scfg, func(ce, se *pair.StreamEnd) {
 		ce.SetAddrs("client:1", tlcpDstKey(dst))
@@ -95,6 +119,11 @@ func tlcpHandshake(dst int, server int, cs, ss []uint16, ccache, scache Cache[*t
 	if len(cst.PeerCertificates) > 0 {
 		h.PeerDER = cst.PeerCertificates[0].Raw
 	}
+	if len(sst.PeerCertificates) > 0 {
+		h.SPeerDER = sst.PeerCertificates[0].Raw
+	}
+	h.SVerified = len(sst.VerifiedChains) > 0
+	h.VPC, h.VC = vpc, vc
 	cf, sf := tlcp.VerifFinished(c)
 	h.Fin = append(cf, sf...)
 	ce.SetReadDeadline(time.Now())
